@@ -386,6 +386,9 @@ def execute(plan, rec):
             rec.check('C13.bools_shape',
                       len(bools) == len(objs) and all(len(r) == len(prps) for r in bools),
                       lambda got=got: f'slot {i}: ragged {got!r}')
+            tup = call(lambda d=d, got=got: (d == got, d != got))   # documented: d == (objects, properties, bools)
+            rec.check('C13.eq_own_triple', tup.ok and tup.value == (True, False),
+                      lambda i=i, tup=tup: f'slot {i}: d == (d.objects, d.properties, d.bools) gives {tup.text()}')
             fresh = call(Definition, *got)
             if fresh.ok:
                 eq1 = call(lambda a, b: a == b, d, fresh.value)
@@ -596,6 +599,8 @@ def execute(plan, rec):
         if not out.ok and not rec.want('C13'):
             defs[s] = models[s] = None
         rec.log(out.text())
+        if cfg.get('xmode') and defs[s] is not None:
+            rec.log('repr ' + call(lambda: core.mask(repr(defs[s]))).text() + ' str ' + call(lambda: str(defs[s])).text())
         if out.ok and isinstance(out.value, list):
             core.scramble(out.value)
             rec.fault('caller_mutates_result')
